@@ -305,6 +305,7 @@ int main(int argc, char **argv)
 			continue;
 		}
 		if (nw == 0 || blen < 0) { puts("bad-op"); continue; }
+		fflush(stdout);		/* keep what was printed so far if the next call faults */
 		if (strcmp(w[0], "crc") == 0 && nw == 2 && hexnum(w[1], 8, &arg[0]) == 0) {
 			run_op(K32, f_crc, NULL, r_crc, buf, blen, arg);
 		} else if (strcmp(w[0], "crcinc") == 0 && nw == 3 && decnum(w[1], &arg[1]) == 0
